@@ -66,7 +66,7 @@ func (opts *CompileOptions) Compile(source string) (string, error) {
 				mode:   letExprMode,
 			}
 			sb := new(strings.Builder)
-			if err := writeExpressionMaybeParen(ctx, sb, stmt.X); err != nil {
+			if err := writeExpressionClosed(ctx, sb, stmt.X); err != nil {
 				return "", err
 			}
 			scope[stmt.Name.Name] = sb.String()
@@ -667,7 +667,7 @@ func writeExpression(ctx *exprContext, sb *strings.Builder, x parser.Expr) error
 		default:
 			fmt.Fprintf(sb, "/* unhandled %s unary op */ ", x.Op)
 		}
-		if err := writeExpressionMaybeParen(ctx, sb, x.X); err != nil {
+		if err := writeExpressionClosed(ctx, sb, x.X); err != nil {
 			return err
 		}
 	case *parser.BinaryExpr:
@@ -761,7 +761,7 @@ func writeExpression(ctx *exprContext, sb *strings.Builder, x parser.Expr) error
 		}
 		sb.WriteString(")")
 	case *parser.IndexExpr:
-		if err := writeExpressionMaybeParen(ctx, sb, x.X); err != nil {
+		if err := writeExpressionClosed(ctx, sb, x.X); err != nil {
 			return err
 		}
 		sb.WriteString("[")
@@ -821,6 +821,33 @@ func writeExpressionMaybeParen(ctx *exprContext, sb *strings.Builder, x parser.E
 	return nil
 }
 
+// writeExpressionClosed writes an expression to sb
+// such that it acts as a single operand in any position,
+// including directly after a sign or before a subscript.
+// It is like writeExpressionMaybeParen,
+// but also surrounds signed expressions with parentheses,
+// because "--x" starts a comment and "-x[i]" subscripts before negating.
+func writeExpressionClosed(ctx *exprContext, sb *strings.Builder, x parser.Expr) error {
+	for {
+		p, ok := x.(*parser.ParenExpr)
+		if !ok {
+			break
+		}
+		x = p.X
+	}
+
+	if _, ok := x.(*parser.UnaryExpr); !ok {
+		return writeExpressionMaybeParen(ctx, sb, x)
+	}
+
+	sb.WriteString("(")
+	if err := writeExpression(ctx, sb, x); err != nil {
+		return err
+	}
+	sb.WriteString(")")
+	return nil
+}
+
 type functionRewrite struct {
 	write func(ctx *exprContext, sb *strings.Builder, x *parser.CallExpr) error
 
@@ -842,7 +869,7 @@ func initKnownFunctions() map[string]*functionRewrite {
 			"iff":       {write: writeIfFunction, needsParens: true},
 			"isnotnull": {write: writeIsNotNullFunction, needsParens: true},
 			"isnull":    {write: writeIsNullFunction, needsParens: true},
-			"not":       {write: writeNotFunction},
+			"not":       {write: writeNotFunction, needsParens: true},
 			"now":       {write: writeNowFunction},
 			"strcat":    {write: writeStrcatFunction, needsParens: true},
 			"tolower":   {write: writeToLowerFunction, needsParens: true},
